@@ -691,6 +691,13 @@ def check_brt_case(case):
             bad.append(("blochredfield.bloch_redfield_tensor", "method-eig:" + meth,
                         "br_computation_method=%s differs from dense (eigenbasis)" % meth))
     Re, V = res[("dense", False)]
+    # hypothesis of Props/C07_sparse.v: the eigen-solver returns the
+    # eigenvalues in non-decreasing order
+    from qutip.core._brtools import _EigenBasisTransform
+    wv = np.asarray(_EigenBasisTransform(qutip.QobjEvo(qutip.Qobj(H))).eigenvalues(0))
+    if np.any(np.diff(wv) < 0) or not np.array_equal(np.sort(wv), np.sort(np.array(case["w"], float))):
+        bad.append(("brtools._EigenBasisTransform.eigenvalues", "not-sorted",
+                    "eigenvalues(t) are not the sorted spectrum of H: %r" % (wv.tolist(),)))
     # V must be an exact signed permutation for a diagonal integer H
     if not np.array_equal(V @ V.conj().T, np.eye(n)):
         return bad      # eigenvectors not exact: outside the exact fragment [NUM]
@@ -1152,6 +1159,15 @@ def check_hist_case(case):
                 obj = _hist_build(case, meth, fb)
                 R, Vevo = (obj, None) if fb else obj
                 fresh = {}
+                if meth == "dense" and fb:
+                    from qutip.core._brtools import _EigenBasisTransform
+                    evh = _EigenBasisTransform(qutip.QobjEvo(
+                        [qutip.Qobj(mat_unjson(case["H0"])),
+                         [qutip.Qobj(mat_unjson(case["H1"])), _lin_t]]))
+                    for t in case["times"]:
+                        if np.any(np.diff(np.asarray(evh.eigenvalues(float(t)))) < 0):
+                            add("brtools._EigenBasisTransform.eigenvalues", "not-sorted",
+                                "eigenvalues(t=%s) of the time-dependent H are not sorted" % t)
                 for t in case["times"]:
                     if t not in fresh:
                         fo = _hist_build(case, meth, fb, tconst=t)
@@ -1445,8 +1461,13 @@ def run(ctx):
         "four-fold element nest, store index a*nrows+b / c*nrows+d, zero-initialised buffers); "
         "`fabs(x) < cutoff` is the abstract predicate `near x` over an abelian group of skew "
         "values (exact arithmetic: floating-point skew differences and borderline cut-offs are "
-        "outside); the loop-skipping devices of the sparse kernels (break, d_min) are checked "
-        "textually but NOT modelled (sparse = dense is an oracle check); "
+        "outside); the loop-skipping devices of the sparse kernels (break over c, d_min, break "
+        "over d, break in the pre-sum loop) are emitted as executable loops over an ordered "
+        "field (Gen/C07_sparse.v: skeleton matched exactly, conditions read from the AST) and "
+        "proved sound under the hypothesis that the eigenvalues are sorted in non-decreasing "
+        "order (the eigen-solver's output order is assumed, and checked by the oracle); entries "
+        "never pushed to the COO buffers are zero and pushed entries are distinct "
+        "(csr.from_coo_pointers is not modelled); "
         "_EigenBasisTransform: V = evecs(t) and _inv(t) = V.adjoint() (eigen-decomposition "
         "itself is LAPACK)",
         "MathComp 1.15 (ssreflect, algebra, real_closed.mxtens), mathcomp.algebra_tactics (ring)"]
@@ -1486,8 +1507,9 @@ def run(ctx):
         oracle_all(0.5)
 
     nviol = len(ctx.violations)
-    ok = vlib.standard_proof_step(ctx, ["Props/C07.vo", "Props/C07_kernels.vo"],
-                                  ["Props/C07.v", "Props/C07_kernels.v"], search)
+    ok = vlib.standard_proof_step(
+        ctx, ["Props/C07.vo", "Props/C07_kernels.vo", "Props/C07_sparse.vo"],
+        ["Props/C07.v", "Props/C07_kernels.v", "Props/C07_sparse.v"], search)
     if not ok and len(ctx.violations) == nviol:
         # the search met only listed findings: the broken proof must still fail the run
         ctx.violation("proof:C07", "theorems-no-longer-check",
@@ -1507,7 +1529,8 @@ def run(ctx):
         if good:
             with vlib.Lock("coq"):
                 rc, out = vlib.sh(["timeout", "900", "coqchk", "-silent", "-o", "-Q", ".", "QV",
-                                   "QV.Props.C07_kernels"], timeout=930, cwd=vlib.COQ)
+                                   "QV.Props.C07_kernels", "QV.Props.C07_sparse"],
+                                  timeout=930, cwd=vlib.COQ)
             # mathcomp.algebra_tactics (ring) loads Coq's primitive machine integers /
             # floats; coqchk lists those primitives under "Axioms".  Nothing else may
             # appear there (every theorem prints "Closed under the global context").
@@ -1517,8 +1540,9 @@ def run(ctx):
             extra = [l for l in listed if l != "<none>" and not re.match(
                 r"Coq\.(Numbers\.Cyclic\.Int63\.PrimInt63|Floats\.PrimFloat|Array\.PArray)\.", l)]
             good = rc == 0 and m is not None and not extra
-            ctx.add_obligation("coqchk QV.Props.C07_kernels (no axiom; only Coq's primitive "
-                               "int/float operations loaded by the ring plugin)", good)
+            ctx.add_obligation("coqchk QV.Props.C07_kernels + QV.Props.C07_sparse (no axiom; "
+                               "only Coq's primitive int/float operations loaded by the ring "
+                               "plugin)", good)
             if not good:
                 out = "unexpected axioms: %r\n" % extra[:10] + out
         if not good:
